@@ -138,3 +138,129 @@ def foreign_modules_refused(H, _):
                     w = {"form": form, "local": i, "foreign": j, "local_first": local_first, "error": repr(err)}
                     H.check("refused_with_ownership_error", isinstance(err, ModuleOwnershipError), witness=w)
                     H.check("nothing_changed", (L.tables(p), L.tables(q)) == before, witness=w)
+
+
+# ------------------------------------------------------------------------------- deductive: one step, tables of any size
+
+import z3  # noqa: E402
+
+from rvproof.heap import FIELDS, LinkHeap  # noqa: E402
+from rvproof.sym import SymBool  # noqa: E402
+
+
+def _step_cases(tier):
+    out = []
+    for op in ("connect", "disconnect_to", "disconnect_from"):
+        for alias in ("distinct", "same_module"):
+            out.append((f"{op},{alias}", (op, alias)))
+    out.append(("foreign_module", ("foreign", "distinct")))
+    return out
+
+
+@contract(
+    "connect_step_preserves_invariant", ["C07"], cases=_step_cases, replayable=False, timeout_ms=60000,
+    targets=["rv.project:Project.connect"],
+)
+def connect_step_preserves_invariant(H, case):
+    """The real Project.connect(a, b) / connect(a, ~b) / connect(~a, b) on a project with ANY number N of
+    modules whose four parallel link tables have ANY lengths and contents satisfying LinksOK (array-
+    theory heap, quantified invariant), a and b at arbitrary positions (or the same module):
+    ensures every clause of LinksOK afterwards; tables of every module other than a (outgoing) and b
+    (incoming) are untouched; the request is honoured at table level: connect appends (ia) to b's
+    incoming and (ib) to a's outgoing table unless the pair is already connected, in which case nothing
+    changes; disconnect blanks exactly the two mirrored entries or changes nothing when the pair is
+    not connected; a module of another project raises ModuleOwnershipError and changes nothing.
+    Assumes Project.module_index(m) == m.index for attached modules (invariant IndexOK of C14)."""
+    from rv.errors import ModuleOwnershipError
+    from rv.modules.module import DisconnectingModule
+
+    op, alias = case
+    c = H.pctx
+    heap = LinkHeap()
+    p = Project()
+    other = Project()
+    a = Amplifier()
+    b = a if alias == "same_module" else Amplifier()
+    ia = H.int("ia", 0, None)
+    ib = ia if alias == "same_module" else H.int("ib", 0, None)
+    c.add(ia.z < heap.N)
+    if alias != "same_module":
+        c.add(z3.And(ib.z < heap.N, ib.z != ia.z))
+    a.index, a.parent = ia, p
+    b.index, b.parent = ib, (other if op == "foreign" else p)
+    for f in FIELDS:
+        setattr(a, f, heap.view(f, ia))
+        if b is not a:
+            setattr(b, f, heap.view(f, ib))
+
+    def module_index(m):
+        if m.parent is not p:
+            raise ValueError("not in list")
+        return m.index
+
+    p.__dict__["module_index"] = module_index
+    for cl in heap.clauses().values():
+        c.add(cl)
+    old = heap.snapshot()
+    frm = DisconnectingModule(a) if op == "disconnect_from" else a
+    to = DisconnectingModule(b) if op == "disconnect_to" else b
+    exc, _ = H.raises(p.connect, frm, to)
+    if op == "foreign":
+        H.check("foreign_module_refused", isinstance(exc, ModuleOwnershipError))
+        H.check("refusal_changes_nothing", all(heap.tab[f] is old.tab[f] and heap.len[f] is old.len[f] for f in FIELDS))
+        return
+    H.check("does_not_raise", exc is None)
+    for name, cl in heap.clauses().items():
+        H.check("LinksOK." + name, SymBool(cl))
+    m, k = z3.Ints("m k")
+    IN0, INS0, OUT0, OUTS0 = (old.tab[f] for f in FIELDS)
+    IN1, INS1, OUT1, OUTS1 = (heap.tab[f] for f in FIELDS)
+    nIN0, nOUT0 = old.len["in_links"], old.len["out_links"]
+    nIN1, nOUT1 = heap.len["in_links"], heap.len["out_links"]
+    H.check("frame.other_incoming_tables_untouched", SymBool(z3.ForAll([m], z3.Implies(
+        m != ib.z, z3.And(IN1[m] == IN0[m], INS1[m] == INS0[m], nIN1[m] == nIN0[m])))))
+    H.check("frame.other_outgoing_tables_untouched", SymBool(z3.ForAll([m], z3.Implies(
+        m != ia.z, z3.And(OUT1[m] == OUT0[m], OUTS1[m] == OUTS0[m], nOUT1[m] == nOUT0[m])))))
+    was = z3.Exists([k], z3.And(0 <= k, k < nIN0[ib.z], IN0[ib.z][k] == ia.z))
+    if op == "connect":
+        H.check("update.already_connected_changes_nothing", SymBool(z3.Implies(was, z3.And(
+            IN1 == IN0, INS1 == INS0, OUT1 == OUT0, OUTS1 == OUTS0, nIN1 == nIN0, nOUT1 == nOUT0))))
+        H.check("update.new_pair_is_appended_on_both_ends", SymBool(z3.Implies(z3.Not(was), z3.And(
+            nIN1[ib.z] == nIN0[ib.z] + 1, nOUT1[ia.z] == nOUT0[ia.z] + 1,
+            IN1[ib.z][nIN0[ib.z]] == ia.z, OUT1[ia.z][nOUT0[ia.z]] == ib.z,
+            z3.ForAll([k], z3.Implies(z3.And(0 <= k, k < nIN0[ib.z]), z3.And(IN1[ib.z][k] == IN0[ib.z][k], INS1[ib.z][k] == INS0[ib.z][k]))),
+            z3.ForAll([k], z3.Implies(z3.And(0 <= k, k < nOUT0[ia.z]), z3.And(OUT1[ia.z][k] == OUT0[ia.z][k], OUTS1[ia.z][k] == OUTS0[ia.z][k])))))))
+        H.check("update.pair_connected_afterwards", SymBool(z3.Exists([k], z3.And(0 <= k, k < nIN1[ib.z], IN1[ib.z][k] == ia.z))))
+    else:
+        H.check("update.absent_pair_changes_nothing", SymBool(z3.Implies(z3.Not(was), z3.And(
+            IN1 == IN0, INS1 == INS0, OUT1 == OUT0, OUTS1 == OUTS0, nIN1 == nIN0, nOUT1 == nOUT0))))
+        H.check("update.lengths_kept", SymBool(z3.And(nIN1 == nIN0, nOUT1 == nOUT0)))
+        H.check("update.pair_gone_afterwards", SymBool(z3.Not(z3.Exists([k], z3.And(0 <= k, k < nIN1[ib.z], IN1[ib.z][k] == ia.z)))))
+        H.check("update.every_other_incoming_entry_kept", SymBool(z3.ForAll([k], z3.Implies(
+            z3.And(0 <= k, k < nIN0[ib.z], IN0[ib.z][k] != ia.z), z3.And(IN1[ib.z][k] == IN0[ib.z][k], INS1[ib.z][k] == INS0[ib.z][k])))))
+        H.check("update.every_other_outgoing_entry_kept", SymBool(z3.ForAll([k], z3.Implies(
+            z3.And(0 <= k, k < nOUT0[ia.z], OUT0[ia.z][k] != ib.z), z3.And(OUT1[ia.z][k] == OUT0[ia.z][k], OUTS1[ia.z][k] == OUTS0[ia.z][k])))))
+    H.cover("reached")
+
+
+@contract("connect_step_canary", ["C07"], canary=True, replayable=False, timeout_ms=20000, targets=["rv.project:Project.connect"])
+def connect_step_canary(H, _):
+    """Vacuity guard for the heap contract: the path condition (the assumed invariant) must not be
+    contradictory, and a false post-condition must not be provable."""
+    c = H.pctx
+    heap = LinkHeap()
+    p = Project()
+    a, b = Amplifier(), Amplifier()
+    ia, ib = H.int("ia", 0, None), H.int("ib", 0, None)
+    c.add(z3.And(ia.z < heap.N, ib.z < heap.N, ib.z != ia.z))
+    a.index, a.parent, b.index, b.parent = ia, p, ib, p
+    for f in FIELDS:
+        setattr(a, f, heap.view(f, ia))
+        setattr(b, f, heap.view(f, ib))
+    p.__dict__["module_index"] = lambda m: m.index
+    for cl in heap.clauses().values():
+        c.add(cl)
+    old = heap.snapshot()
+    H.check("canary_assumptions_are_contradictory", SymBool(z3.BoolVal(False)) if False else SymBool(z3.Int("zero!") != z3.Int("zero!")))
+    H.call(p.connect, a, b)
+    H.check("canary_connect_never_changes_lengths", SymBool(heap.len["in_links"] == old.len["in_links"]))
